@@ -72,7 +72,13 @@ func genRefCase(r *rng, id string) *ValCase {
 		euri := resolveURI(effBase, eid)
 		inner, mi := target()
 		anc, ma := target(DMem{"$anchor", DStr("ea")})
-		res, mr := target(DMem{"$id", DStr(eid)}, DMem{"$defs", DObj{{"inner", inner}, {"anc", anc}}})
+		// the same relative reference text in every embedded resource: it means something else in each
+		selfForm := pick(r, []string{"#/$defs/inner", "#ea", "#/$defs/inner"})
+		selfMarker := mi
+		if selfForm == "#ea" {
+			selfMarker = ma
+		}
+		res, mr := target(DMem{"$id", DStr(eid)}, DMem{"$defs", DObj{{"inner", inner}, {"anc", anc}, {"self", DObj{{"$ref", DStr(selfForm)}}}}})
 		name := fmt.Sprintf("e%d", i)
 		defs = append(defs, DMem{name, res})
 		refForms := []string{eid, euri}
@@ -85,7 +91,8 @@ func genRefCase(r *rng, id string) *ValCase {
 		targets = append(targets,
 			refTarget{mr, append(refForms, "#/$defs/"+name)},
 			refTarget{mi, []string{eid + "#/$defs/inner", "#/$defs/" + name + "/$defs/inner"}},
-			refTarget{ma, []string{eid + "#ea", euri + "#ea"}})
+			refTarget{ma, []string{eid + "#ea", euri + "#ea"}},
+			refTarget{selfMarker, []string{eid + "#/$defs/self", "#/$defs/" + name + "/$defs/self"}})
 	}
 	// loader documents
 	c := &ValCase{ID: id, Base: baseOpt, HSeed: 0}
@@ -252,10 +259,21 @@ func genDynCase(r *rng, id string) *ValCase {
 	c := &ValCase{ID: id}
 	inPlaceHolder := false
 	needSide := false
+	// a quiet chain: no resource on the main route declares the anchor, the lexical target lives in
+	// a resource that is never entered, and a second route passes through a declaring resource -
+	// the same keyword falls back to its lexical target on one route and binds dynamically on the other
+	quiet := r.chance(1, 4)
+	if quiet && n < 2 {
+		n = 2
+	}
 	resDoc := func(k int) DObj {
 		o := DObj{{"$id", DStr(fmt.Sprintf("%sr%d", base, k))}}
 		sub := DObj{}
-		switch r.intn(4) {
+		kindOfRes := r.intn(4)
+		if quiet {
+			kindOfRes = 2 + r.intn(2)
+		}
+		switch kindOfRes {
 		case 0, 1:
 			mk++
 			m := fmt.Sprintf("m%d", mk)
@@ -281,6 +299,9 @@ func genDynCase(r *rng, id string) *ValCase {
 			}
 		} else {
 			form := pick(r, []string{"#node", "#node", fmt.Sprintf("r%d#node", r.intn(n)), "#/$defs/n", fmt.Sprintf("r%d", r.intn(n)), "side#node", "side#node"})
+			if quiet {
+				form = "side#node"
+			}
 			if form == "side#node" {
 				// the lexical target lives in a resource that is never entered: only the dynamic
 				// scope (which includes the holder's own resource) can pick another one
@@ -355,7 +376,7 @@ func genDynCase(r *rng, id string) *ValCase {
 	// a second route into the last resource, through another intermediate resource that may
 	// declare its own dynamic anchor: the same $dynamicRef keyword is then reached under two
 	// different dynamic scopes within one Validate call
-	two := n >= 2 && r.chance(1, 2)
+	two := n >= 2 && (quiet || r.chance(1, 2))
 	if two {
 		mk++
 		m := fmt.Sprintf("m%d", mk)
